@@ -12,6 +12,7 @@ import (
 	"path/filepath"
 	"sort"
 	"strings"
+	"sync"
 	"time"
 
 	prom "github.com/prometheus/client_golang/prometheus"
@@ -522,6 +523,78 @@ func init() {
 			}
 			runCase("custom", fl, via, ops, 1+rng.Intn(6), specTok, rng.Intn(2) == 0, rng.Intn(6))
 		}
+		// (C) concurrent first use of one family (same name and tag keys, different tag values) from several goroutines:
+		//     get-or-register must be atomic - nobody's registration is rejected, every series is there
+		nc := 400
+		if thorough {
+			nc = 4000
+		}
+		for i := 0; i < nc; i++ {
+			const G = 4
+			c := newC17Case("custom", "summary")
+			kind := kinds[i%4]
+			tr.Emit(M{"e": "new", "flavour": "summary", "cb": "custom", "cbPanics": false, "cbObs": false, "via": "reporter-concurrent", "specs": M{"alpha": []int{2, 6}, "beta_total": []int{4}}, "durations": false})
+			objs := make([]interface{}, G)
+			var wg sync.WaitGroup
+			start := make(chan struct{})
+			for g := 0; g < G; g++ {
+				g := g
+				wg.Add(1)
+				go func() {
+					defer wg.Done()
+					defer func() { recover() }()
+					tm := map[string]string{"k": fmt.Sprintf("w%d", g)}
+					<-start
+					switch kind {
+					case "counter":
+						objs[g] = c.rep.AllocateCounter("alpha", tm)
+					case "gauge":
+						objs[g] = c.rep.AllocateGauge("alpha", tm)
+					case "timer":
+						objs[g] = c.rep.AllocateTimer("alpha", tm)
+					case "histogram":
+						objs[g] = c.rep.AllocateHistogram("alpha", tm, tally.ValueBuckets{0.001, 1000.5})
+					}
+				}()
+			}
+			close(start)
+			wg.Wait()
+			for g := 0; g < G; g++ {
+				res := "live"
+				if objs[g] == nil {
+					res = "panic"
+				} else if strings.Contains(fmt.Sprintf("%T", objs[g]), "noop") {
+					res = "noop"
+				}
+				h := 0
+				if res != "panic" {
+					h = g + 1
+				}
+				tr.Emit(M{"e": "alloc", "as": kind, "name": "alpha", "tm": [][2]string{{"k", fmt.Sprintf("w%d", g)}}, "h": h, "res": res, "cb": -1})
+				evals++
+				if res == "panic" {
+					continue
+				}
+				v := g + 1
+				switch kind {
+				case "counter":
+					objs[g].(tally.CachedCount).ReportCount(int64(v))
+				case "gauge":
+					objs[g].(tally.CachedGauge).ReportGauge(gaugeVals[v-1])
+				case "timer":
+					objs[g].(tally.CachedTimer).ReportTimer(time.Second)
+				case "histogram":
+					objs[g].(tally.CachedHistogram).ValueBucket(0.001, 1000.5).ReportSamples(1)
+					v = 3
+				}
+				tr.Emit(M{"e": "rep", "h": h, "v": v, "res": "ok"})
+			}
+			tr.Emit(M{"e": "cbtotal", "n": c.callbacks()})
+			series, gerr := c.gather(map[string]map[float64]int{"alpha": {0.001: 2, 1000.5: 6}}, gaugeTok)
+			tr.Emit(M{"e": "gather", "pass": "ok", "err": gerr, "series": series})
+			cases++
+		}
+		distinct["concurrent-first-use"] = true
 		tr.Close()
 		writeMeta(cm.out, M{"cases": cases, "events": tr.N, "evals": evals, "distinct": len(distinct), "samples": samples})
 	})
